@@ -152,6 +152,9 @@ pub fn policies(subs: &[f64]) -> Vec<ExtremeLatitudeMethod> {
 
 pub fn explore(ctx: &Ctx) {
     // call sequences from non-initial states (see history.rs)
+    if ctx.tier == Tier::Thorough {
+        crate::history::explore(ctx, "policy_full", &crate::history::alphabet_policy_full(), 2);
+    }
     crate::history::explore(ctx, "policy", &crate::history::alphabet_policy(), 2);
     let quick = ctx.tier == Tier::Quick;
     ctx.rule("every (site, date, method/intervals, policy) enumerated once; non-trivial = the policy's formula applied to at least one of Fajr/Isha (or, for nearest-latitude-all, all six) and was judged");
